@@ -82,7 +82,10 @@ Expr == EN!Expressible(W)
 InvFlip == (stage = "done" /\ Expr) => Cycle(S, W, TRUE) = Result
 (* the working directory holds what was handed out *)
 InvRoundTrip == (stage = "done" /\ Expr) => ReadBack(W, S.ns, FALSE) = Ok(W)
-(* as the code composes the steps: the two laws of the cycle.  They are checked by MC_EditCycle_design.cfg only. *)
+(* the two laws of the cycle.  Faithful holds for the composition as coded and is part of MC_EditCycle.cfg; NoOp does not *)
+(* (a nested class below an outer class of the unmapped package is a placeholder by its extended name, is removed on the  *)
+(* way out, and its removal comes back as Edit(extended name -> simple inner name): 160 of the 480 unedited cycles of     *)
+(* this universe report a change) and is checked by MC_EditCycle_design.cfg only, which is not registered.               *)
 RECURSIVE KeysKept(_, _)
 KeysKept(sk, rk) == \A k \in DOMAIN sk : k \in DOMAIN rk /\ KeysKept(sk[k].kids, rk[k].kids)
 InvNoOp == (stage = "done" /\ edit = "none") => NoOpLaw(S, FALSE)
